@@ -36,7 +36,6 @@ var c12A1Exceptions = map[string]string{
 
 var c12B1ExecExceptions = map[string]string{
 	"Engine.bindExecuteQueryNode/leaves without entry after GetUserVariable: return(nil, nil)": "the swallowed error cannot occur with the sessions in this repository: sql.UserVars.GetUserVariable (the only implementation) always returns a nil error; not demonstrable",
-	"Engine.bindExecuteQueryNode/leaves without entry after Convert: return(nil, nil)":         "no user-variable value could be found whose Promote().Convert fails (16 value kinds probed through SET/EXECUTE … USING); not demonstrable",
 }
 
 func c12RepoAst() *c12AstCfg {
